@@ -2179,8 +2179,10 @@ CaseX86PushPop_Gp:
                             o1.as<Mem>().base_and_index_types()))
           goto InvalidInstruction;
 
-        rm_rel = &o1;
-        if (ASMJIT_UNLIKELY(o0.as<Mem>().has_offset()))
+        // The segment override applies to the DS:[zSI] operand, which is the second operand of MOVS, but the first
+        // operand of CMPS (ES:[zDI] operand cannot be overridden).
+        rm_rel = o0.as<Mem>().base_id() == Gp::kIdSi ? &o0 : &o1;
+        if (ASMJIT_UNLIKELY((rm_rel == &o0 ? o1 : o0).as<Mem>().has_offset()))
           goto InvalidInstruction;
 
         uint32_t size = o1.x86_rm_size();
